@@ -52,7 +52,7 @@ def dec_list(vs):
 
 def gen_cases(rng, n, quick):
     cases = []
-    subs = ['corr', 'corr', 'sample', 'args', 'corr', 'sample', 'args', 'corr']
+    subs = ['corr', 'repeat', 'sample', 'args', 'corr', 'repeat', 'sample', 'args', 'corr', 'repeat']
     k = 0
     while len(cases) < n:
         sub = subs[k % len(subs)]
@@ -86,6 +86,20 @@ def gen_cases(rng, n, quick):
                     ket['form'] = rng.choice([None, 'A', 'B', 'C'])
                     ket['normalize'] = True
                 case.update(ket=ket)
+        elif sub == 'repeat':
+            # fermionic chains: finite (all conserve options) and infinite unit cells (terms beyond the first cell)
+            if rng.random() < 0.5:
+                L = rng.randint(1, 3)
+                kk = rng.choice([('Fermion', None), ('Fermion', 'parity'), ('SHFermion', [None, None])])
+                case.update(inf=dict(kind='inf', seed=rng.getrandbits(31), complex=rng.random() < 0.3,
+                                     sites={'kinds': [[kk[0], kk[1]]] * L}, chi=[2] * L))
+            else:
+                kk = rng.choice([('Fermion', None), ('Fermion', 'N'), ('Fermion', 'parity'), ('SHFermion', [None, None]),
+                                 ('SHFermion', ['N', 'Sz']), ('SHFermion', ['parity', 'Sz']), ('SHFermion', ['N', None])])
+                L = rng.randint(3, 6 if kk[0] == 'Fermion' else 4)
+                case.update(ket=dict(kind='full', seed=rng.getrandbits(31), complex=rng.random() < 0.3,
+                                     sites={'kinds': [[kk[0], kk[1]]] * L}, form=rng.choice([None, 'A', 'B', 'C']),
+                                     normalize=True, density=1.0))
         cases.append(case)
     return cases
 
@@ -748,12 +762,242 @@ def eval_args(case):
     return dict(oracle=oracle, lines=lines, compare=compare, nontrivial=True, hist=hist)
 
 
+# ----------------------------------------------------------------------------------------------------------------
+# repeated evaluation of the same measurement objects (TermList, term lists, ops lists, site arrays, strength arrays)
+
+
+def eval_repeat(case):
+    """Every evaluation of the same measurement with the same (caller-owned) arguments gives the same, dense-reference
+    value; numpy arrays / lists owned by the caller are bit-identical afterwards; a TermList that was evaluated still
+    describes the same operator (it may be re-ordered in place, signs and terms together)."""
+    import copy
+    from functools import reduce
+    from tenpy.networks.terms import TermList
+    rnd = random.Random(case['seed'])
+    oracle = []
+    hist = ['ext=repeat']
+    if 'inf' in case:
+        b = mc.build_infinite(case['inf'])
+        psi = b['psi']
+        w = mc.transfer_spectrum(b['dense'])[0]
+        if (len(w) > 1 and abs(w[1]) > 0.9 * abs(w[0])) or abs(w[0]) < 1e-8:
+            return dict(skip='inf: degenerate/zero (generator)')
+        psi.canonical_form()
+        hist.append('ext.bc=infinite')
+    else:
+        psi = mc.build_state(case['ket'])['psi']
+        hist.append('ext.bc=finite')
+    L = psi.L
+    fin = psi.finite
+    sites = psi.sites
+    d0 = max(s.dim for s in sites)
+    wmax = 7 if d0 == 2 else (5 if d0 == 3 else 4)     # dense window (sites)
+
+    def site(i):
+        return sites[i % L]
+
+    def jw_names(s):
+        return sorted(n for n in s.opnames if s.op_needs_JW(n) and not n.startswith('JW') and s.get_hc_op_name(n) in s.opnames)
+
+    def diag_names(s):
+        out = []
+        for n in sorted(s.opnames):
+            if s.op_needs_JW(n) or n.startswith('JW'):
+                continue
+            m = s.get_op(n).to_ndarray()
+            if np.count_nonzero(m - np.diag(np.diagonal(m))) == 0:
+                out.append(n)
+        return out
+
+    def dense_term(term):
+        """<psi| op_0 op_1 ... |psi> (mathematical order), JW strings from the left edge of the window (every term has an
+        even number of fermionic operators, so everything further left cancels)."""
+        idx = [i for _, i in term]
+        a, bmax = min(idx), max(idx)
+        n = bmax - a + 1
+        th = mc.np_theta(psi, a, n)
+        chiL, chiR = th.shape[0], th.shape[-1]
+        dims = list(th.shape[1:-1])
+        vec = th.reshape(chiL, int(np.prod(dims)), chiR)
+        O = np.eye(int(np.prod(dims)))
+        for name, i in term:
+            s_ = site(i)
+            facs = []
+            for x in range(n):
+                sx = site(a + x)
+                if x < i - a and s_.op_needs_JW(name):
+                    facs.append(sx.get_op('JW').to_ndarray())
+                elif x == i - a:
+                    facs.append(s_.get_op(name).to_ndarray())
+                else:
+                    facs.append(np.eye(sx.dim))
+            O = O @ reduce(np.kron, facs)
+        nrm = np.einsum('apb,apb->', vec.conj(), vec)
+        return np.einsum('apb,pq,aqb->', vec.conj(), O, vec) / nrm
+
+    def gen_term(lo, hi, span):
+        """random term inside [lo, hi], at most `span` sites wide: 0, 2 or 4 fermionic operators (an operator and its
+        hermitian conjugate per pair, so the term is charge neutral) plus diagonal ones, in RANDOM order."""
+        a = rnd.randint(lo, max(lo, hi - span + 1))
+        pos = list(range(a, min(hi, a + span - 1) + 1))
+        term = []
+        npairs = rnd.choice([0, 1, 1, 1, 2])
+        for _ in range(npairs):
+            cand = [i for i in pos if jw_names(site(i))]
+            if len(cand) < 1:
+                break
+            i, j = rnd.choice(cand), rnd.choice(cand)
+            nm = rnd.choice(jw_names(site(i)))
+            hc = site(i).get_hc_op_name(nm)
+            if hc not in site(j).opnames or not site(j).op_needs_JW(hc):
+                continue
+            term += [(nm, i), (hc, j)]
+        for _ in range(rnd.randint(0 if term else 1, 2)):
+            i = rnd.choice(pos)
+            term.append((rnd.choice(diag_names(site(i))), i))
+        rnd.shuffle(term)
+        return term
+
+    def gen_strengths(n, cplx):
+        st = [rnd.choice([1.0, -0.5, 2.0, 0.25, 0.7, -1.1]) for _ in range(n)]
+        if cplx:
+            st = [x * (1j if rnd.random() < 0.3 else 1.0) for x in st]
+        return st
+
+    def termlist_value(tl):
+        return sum(s_ * dense_term(t) for t, s_ in tl)
+
+    cplx = psi.dtype.kind == 'c'
+    # ---------------- expectation_value_terms_sum, three evaluations of ONE TermList
+    for trial in range(2):
+        if fin:
+            terms = [gen_term(0, L - 1, min(L, wmax)) for _ in range(rnd.randint(1, 4))]
+        else:
+            # terms may start left of / right of the first unit cell
+            terms = [gen_term(rnd.randint(-L, 2 * L), 10 ** 6, min(wmax, L + 2)) for _ in range(rnd.randint(1, 4))]
+        st_list = gen_strengths(len(terms), cplx)
+        mode = rnd.choice(['array', 'array', 'list'])
+        st_arg = np.array(st_list) if mode == 'array' else list(st_list)
+        st_snap = copy.deepcopy(st_arg)
+        terms_snap = copy.deepcopy(terms)
+        expected = sum(s_ * dense_term(t) for t, s_ in zip(terms_snap, st_list))
+        det = 'bc=%s L=%d terms=%s strength(%s)=%s' % (psi.bc, L, terms_snap, mode, st_list)
+        try:
+            tl = TermList(terms, st_arg)
+            for call in range(1, 4):
+                val, _ = psi.expectation_value_terms_sum(tl)
+                if abs(val - expected) > 1e-8 * (1 + abs(expected)):
+                    oracle.append(('C08.ext.repeat.expectation_value_terms_sum.value[evaluation %d of the same TermList]' % min(call, 2),
+                                   '%s: evaluation %d got %r want %r' % (det, call, val, expected)))
+                    break
+                now = termlist_value(tl)
+                if abs(now - expected) > 1e-9 * (1 + abs(expected)):
+                    oracle.append(('C08.ext.repeat.TermList-changed-meaning[after expectation_value_terms_sum]',
+                                   '%s: after evaluation %d the TermList reads %s * %s (dense %r, was %r)' % (
+                                       det, call, tl.terms, tl.strength.tolist(), now, expected)))
+                    break
+            # the caller's strength array / list is untouched
+            same = (np.array_equal(st_arg, st_snap) if mode == 'array' else st_arg == st_snap)
+            if not same:
+                oracle.append(('C08.ext.repeat.caller-strength-modified[expectation_value_terms_sum]',
+                               '%s: caller-owned strengths now %r' % (det, np.asarray(st_arg).tolist())))
+            # a second TermList from the caller's own (unchanged) arguments
+            val2, _ = psi.expectation_value_terms_sum(TermList(copy.deepcopy(terms_snap), st_arg))
+            if abs(val2 - expected) > 1e-8 * (1 + abs(expected)):
+                oracle.append(('C08.ext.repeat.expectation_value_terms_sum.value[second TermList from the same strength argument]',
+                               '%s: got %r want %r' % (det, val2, expected)))
+            # shift() returns a COPY: evaluating it must not disturb the original (finite: shift 0)
+            tl3 = TermList(copy.deepcopy(terms_snap), copy.deepcopy(st_snap))
+            sh = tl3.shift(0 if fin else L)
+            psi.expectation_value_terms_sum(sh)
+            if abs(termlist_value(tl3) - expected) > 1e-9 * (1 + abs(expected)):
+                oracle.append(('C08.ext.repeat.TermList-changed-meaning[after evaluating its shift() copy]', det))
+        except Exception as e:
+            oracle.append(('C08.ext.repeat.expectation_value_terms_sum.raises:%s' % type(e).__name__, '%s: %r' % (det, e)))
+        hist.append('ext.repeat.terms_sum=%s' % mode)
+    # ---------------- expectation_value_term twice with the same term object
+    for _ in range(2):
+        term = gen_term(0, L - 1, min(L, wmax)) if fin else gen_term(rnd.randint(-L, 2 * L), 10 ** 6, min(wmax, L + 2))
+        snap = copy.deepcopy(term)
+        want = dense_term(snap)
+        try:
+            vals = [psi.expectation_value_term(term) for _ in range(2)]
+            for k, v in enumerate(vals):
+                if abs(v - want) > 1e-8 * (1 + abs(want)):
+                    oracle.append(('C08.ext.repeat.expectation_value_term.value', 'term=%s evaluation %d got %r want %r' % (snap, k + 1, v, want)))
+                    break
+            if term != snap:
+                oracle.append(('C08.ext.repeat.caller-term-modified[expectation_value_term]', '%s -> %s' % (snap, term)))
+        except Exception as e:
+            oracle.append(('C08.ext.repeat.expectation_value_term.raises:%s' % type(e).__name__, '%s: %r' % (snap, e)))
+    # ---------------- term_list_correlation_function_right twice with the same TermLists / j_R array
+    if fin and L >= 4:
+        wl = rnd.randint(1, 2)
+        wr = rnd.randint(1, 2)
+        if wl + wr <= L:
+            tLs = [[(n_, i - 0) for n_, i in gen_term(0, wl - 1, wl)] for _ in range(rnd.randint(1, 2))]
+            tRs = [[(n_, i - 0) for n_, i in gen_term(0, wr - 1, wr)] for _ in range(rnd.randint(1, 2))]
+            # same site kinds needed for shifted terms: only uniform chains
+            if len({repr(s_) for s_ in sites}) == 1:
+                sL, sR = gen_strengths(len(tLs), cplx), gen_strengths(len(tRs), cplx)
+                aL, aR = np.array(sL), np.array(sR)
+                iL = rnd.randint(0, L - wl - wr)
+                jR = np.array(sorted(rnd.sample(range(iL + wl, L - wr + 1), rnd.randint(1, L - wr + 1 - iL - wl))))
+                jsnap = jR.copy()
+                want = []
+                for j in jsnap:
+                    v = 0.0
+                    for ta, xa in zip(tLs, sL):
+                        for tb, xb in zip(tRs, sR):
+                            v = v + xa * xb * dense_term([(n_, i + iL) for n_, i in ta] + [(n_, i + int(j)) for n_, i in tb])
+                    want.append(v)
+                want = np.array(want)
+                det = 'L=%d term_list_L=%s*%s term_list_R=%s*%s i_L=%d j_R=%s' % (L, tLs, sL, tRs, sR, iL, jsnap.tolist())
+                try:
+                    tlL, tlR = TermList(copy.deepcopy(tLs), aL), TermList(copy.deepcopy(tRs), aR)
+                    for call in range(1, 3):
+                        got = np.array(psi.term_list_correlation_function_right(tlL, tlR, iL, jR))
+                        if not close(got, want, 1e-8):
+                            oracle.append(('C08.ext.repeat.term_list_correlation_function_right.value[evaluation %d]' % call,
+                                           '%s got %s want %s' % (det, got[:4], want[:4])))
+                            break
+                    if not (np.array_equal(jR, jsnap) and np.array_equal(aL, np.array(sL)) and np.array_equal(aR, np.array(sR))):
+                        oracle.append(('C08.ext.repeat.caller-array-modified[term_list_correlation_function_right]', det))
+                except Exception as e:
+                    oracle.append(('C08.ext.repeat.term_list_correlation_function_right.raises:%s' % type(e).__name__, '%s: %r' % (det, e)))
+                hist.append('ext.repeat.term_list_corr')
+    # ---------------- correlation_function / expectation_value twice with caller-owned lists and arrays
+    if fin:
+        o1 = [rnd.choice(diag_names(s_)) for s_ in sites]
+        o2 = [rnd.choice(diag_names(s_)) for s_ in sites]
+        s1 = np.array(rnd.sample(range(L), rnd.randint(1, L)))     # NOT sorted: the code sorts a copy
+        s2 = np.array(rnd.sample(range(L), rnd.randint(1, L)))
+        snap = (list(o1), list(o2), s1.copy(), s2.copy())
+        c1 = np.array(psi.correlation_function(o1, o2, s1, s2))
+        c2 = np.array(psi.correlation_function(o1, o2, s1, s2))
+        want = np.array([[dense_term([(o1[i], i), (o2[j], j)]) for j in sorted(snap[3])] for i in sorted(snap[2])])
+        if not close(c1, want, 1e-8) or not close(c2, want, 1e-8):
+            oracle.append(('C08.ext.repeat.correlation_function.value', 'ops1=%s ops2=%s sites1=%s sites2=%s' % (o1, o2, snap[2], snap[3])))
+        if o1 != snap[0] or o2 != snap[1] or not np.array_equal(s1, snap[2]) or not np.array_equal(s2, snap[3]):
+            oracle.append(('C08.ext.repeat.caller-array-modified[correlation_function]', 'sites1 %s -> %s, sites2 %s -> %s' % (snap[2], s1, snap[3], s2)))
+        sl = np.array(rnd.sample(range(L), rnd.randint(1, L)))
+        sls = sl.copy()
+        e1 = np.array(psi.expectation_value(o1, sl))
+        e2 = np.array(psi.expectation_value(o1, sl))
+        wante = np.array([dense_term([(o1[i], i)]) for i in sls])
+        if not close(e1, wante, 1e-8) or not close(e2, wante, 1e-8) or not np.array_equal(sl, sls) or o1 != snap[0]:
+            oracle.append(('C08.ext.repeat.expectation_value', 'ops=%s sites=%s' % (snap[0], sls)))
+    return dict(oracle=oracle, lines=[], nontrivial=max(psi.chi) > 1, hist=hist)
+
+
 def eval_ext(case):
     sub = case['sub']
     if sub == 'corr':
         return eval_corr(case)
     if sub == 'sample':
         return eval_sample(case)
+    if sub == 'repeat':
+        return eval_repeat(case)
     return eval_args(case)
 
 
